@@ -23,6 +23,8 @@ mutate / stream), which the retry logic of the client relies on.
 Added while testing against seeded changes: Also: RemoteBranch/RemoteRepository.lock_write (re)initialise _leave_lock
 on every outermost lock; RemoteStreamSink.insert_stream calls target_repo.refresh_data() before reporting a successful
 RPC insert.
+leave-lock-only-on-success: in the smart lock handlers no failure response is reachable (exception edges included) after
+leave_lock_in_place().
 cache-clear-siblings-agree: RemoteBranch._clear_cached_state_of_remote_branch_only resets every own cache attribute
 that _clear_cached_state resets (and calls the base class part when that one does).
 Does not decide: behavioural equivalence of remote and local operations (not applicable to static analysis).
@@ -93,6 +95,25 @@ def run(ctx):
     r = g.reach(rpc, avoid=set(rf))
     ctx.check("vfs-view-refreshed-after-rpc-insert", where, bool(rf) and not (set(after) & r), "after the server inserted the stream, target_repo.refresh_data() runs before success is reported (the client's VFS view reloads pack-names)", message="insert_stream reports success without refresh_data(): under a held write lock the client-side real repository keeps its old pack list, so VFS-backed reads and the next commit do not see the revisions just pushed — results differ from the same sequence on a local path")
 
+    # ---- server lock handlers: "leave the lock in place" is decided on the success path only ---------------------------
+    # leave_lock_in_place() makes the following unlock() keep the physical lock for the client that receives the token.
+    # If a failure response can still follow it (a second lock that fails, …) the lock stays on disk with a token nobody
+    # was given: every later lock_write, local or remote, fails until break-lock — a local lock attempt leaves nothing.
+    from ..cfg import build_cfg as _bcfg
+
+    n_leave = 0
+    for rel_ in ("breezy/bzr/smart/branch.py", "breezy/bzr/smart/repository.py", "breezy/bzr/smart/bzrdir.py"):
+        for q_, f_ in repo.module(rel_).functions().items():
+            if not any(call_attr(c) == "leave_lock_in_place" for c in calls_in(f_)):
+                continue
+            gl = _bcfg(f_)
+            lv = [n.id for n in gl.nodes if any(call_attr(c) == "leave_lock_in_place" for c in n.calls())]
+            fails = [n.id for n in gl.nodes if n.kind == "stmt" and isinstance(n.ast, ast.Return) and n.ast.value is not None and "FailedSmartServerResponse" in norm(n.ast.value)]
+            n_leave += len(lv)
+            hit = sorted(set(fails) & gl.reach(lv))
+            wl_ = gl.path(lv, hit) if hit else None
+            ctx.check("leave-lock-only-on-success", f"{rel_}:{q_}", not hit, f"{q_}: no failure response is reachable after leave_lock_in_place()", construct="; ".join(gl.nodes[i].text()[:50] for i in hit), message=f"{q_} calls leave_lock_in_place() at a point from which it can still answer with a failure ({'; '.join(gl.nodes[i].text()[:40] for i in hit)}): the physical lock is left on disk for a token the client never receives, so the served repository/branch stays locked until break-lock, where the same refused lock attempt on a local branch leaves nothing behind", witness=gl.show_path(wl_) if wl_ else None)
+    ctx.require(n_leave >= 3, f"only {n_leave} leave_lock_in_place() sites found in the smart request handlers (hand-confirmed: 4)")
     # ---- the two cache-clearing siblings of RemoteBranch reset the same client-side caches -----------------------------
     # _clear_cached_state_of_remote_branch_only is "_clear_cached_state without touching _real_branch": every cache
     # attribute of the RemoteBranch itself that the full version resets, the partial one resets too (it is what pull()
@@ -112,6 +133,7 @@ def run(ctx):
     ctx.require(bool(rf_), f"{RM}:RemoteBranch._clear_cached_state resets no own cache attribute (hand-confirmed: _tags_bytes)")
 
 MUTANTS = [
+    Mutant("repository lock left in place before the branch lock is taken", "breezy/bzr/smart/branch.py", "            repo_token = branch.repository.lock_write(token=repo_token).repository_token\n            try:\n                branch_token = branch.lock_write(token=branch_token).token\n", "            repo_token = branch.repository.lock_write(token=repo_token).repository_token\n            if repo_token is not None:\n                branch.repository.leave_lock_in_place()\n            try:\n                branch_token = branch.lock_write(token=branch_token).token\n", expect="leave-lock-only-on-success"),
     Mutant("remote-only cache clearing keeps the tags", RM, "        super()._clear_cached_state()\n        self._tags_bytes = None\n\n    @property\n    def control_files", "        super()._clear_cached_state()\n\n    @property\n    def control_files", expect="cache-clear-siblings-agree"),
     Mutant("branch lock keeps the previous release mode", RM, "            if token is not None:\n                self._leave_lock = True\n            else:\n                self._leave_lock = False\n            self._lock_mode = \"w\"\n            self._lock_count = 1\n        elif self._lock_mode == \"r\":\n            raise errors.ReadOnlyError(self)\n        else:\n            if token is not None:\n                # A token was given to lock_write, and we're relocking, so\n                # check that the given token actually matches the one we\n                # already have.\n                if token != self._lock_token:\n                    raise errors.TokenMismatch(token, self._lock_token)\n            self._lock_count += 1\n            # Re-lock the repository too.\n            self.repository.lock_write(self._repo_lock_token)", "            if token is not None:\n                self._leave_lock = True\n            self._lock_mode = \"w\"\n            self._lock_count = 1\n        elif self._lock_mode == \"r\":\n            raise errors.ReadOnlyError(self)\n        else:\n            if token is not None:\n                # A token was given to lock_write, and we're relocking, so\n                # check that the given token actually matches the one we\n                # already have.\n                if token != self._lock_token:\n                    raise errors.TokenMismatch(token, self._lock_token)\n            self._lock_count += 1\n            # Re-lock the repository too.\n            self.repository.lock_write(self._repo_lock_token)", expect="lock-release-mode-reinitialised"),
     Mutant("no refresh after the RPC insert", RM, "        else:\n            self.target_repo.refresh_data()\n            return [], set()\n", "        else:\n            return [], set()\n", expect="vfs-view-refreshed-after-rpc-insert"),
